@@ -82,3 +82,41 @@ pub fn symbol_ops_flat(
 }
 
 pub use crate::constraint_matrix::generate_constraint_matrix_no_hdpc;
+
+// Observer for the five-phase solver: at the end of every first-phase iteration (phase 1), at the end of the first
+// phase (11) and of phases 2..5, the counters i and u, the column and row permutations c and d, and the number of
+// symbol operations recorded so far.
+#[cfg(feature = "std")]
+#[derive(Clone, Debug)]
+pub struct SolverMark {
+    pub phase: u8,
+    pub i: usize,
+    pub u: usize,
+    pub c: std::vec::Vec<usize>,
+    pub d: std::vec::Vec<usize>,
+    pub ops: usize,
+}
+
+#[cfg(feature = "std")]
+std::thread_local! {
+    static SOLVER_MARKS: std::cell::RefCell<Option<std::vec::Vec<SolverMark>>> = const { std::cell::RefCell::new(None) };
+}
+
+#[cfg(feature = "std")]
+pub fn solver_observe(enable: bool) {
+    SOLVER_MARKS.with(|e| *e.borrow_mut() = if enable { Some(std::vec::Vec::new()) } else { None });
+}
+
+#[cfg(feature = "std")]
+pub fn solver_take_marks() -> std::vec::Vec<SolverMark> {
+    SOLVER_MARKS.with(|e| e.borrow_mut().as_mut().map(std::mem::take).unwrap_or_default())
+}
+
+#[cfg(feature = "std")]
+pub(crate) fn solver_marker(phase: u8, i: usize, u: usize, c: &[usize], d: &[usize], ops: usize) {
+    SOLVER_MARKS.with(|e| {
+        if let Some(v) = e.borrow_mut().as_mut() {
+            v.push(SolverMark { phase, i, u, c: c.to_vec(), d: d.to_vec(), ops });
+        }
+    });
+}
